@@ -78,9 +78,9 @@ def judge_names_call(forest, mlines):
         if got != names:
             k = next((j for j in range(min(len(got), len(names))) if got[j] != names[j]), None)
             det['first_difference'] = {'model': got[k], 'rtamt': names[k]} if k is not None else None
-            return 'violation', det
+            return 'model-differs', det
         if toks[1] != '1':
-            return 'violation', dict(det, expected={'source': 'nwf: a variable is an Identifier cut at its first dot, a constant is str(float)', 'values': True}, observed=False)
+            return 'model-differs', dict(det, expected={'source': 'nwf: a variable is an Identifier cut at its first dot, a constant is str(float)', 'values': True}, observed=False)
         for nd in all_nodes(d, []):
             s = strip_names(nd)
             prev = by_name.setdefault(nd[1], s)
